@@ -53,6 +53,18 @@ func (w *roomWriter) Write(p []byte) (int, error) {
 	return m, nil
 }
 
+// callWatchMarked: one call under the stall watchdog; a call that does not return is reported as panicked with the neverReturns marker
+func callWatchMarked(f func()) (hung, panicked bool, msg string) {
+	if stallsExhausted() {
+		return false, false, ""
+	}
+	hung, panicked, msg = callWatch(f)
+	if hung {
+		return true, true, neverReturns + msg
+	}
+	return
+}
+
 func replayValueDest(p interface{}, kind string, held []byte, room int) map[string]interface{} {
 	m := replayValue(p)
 	m["dest"] = kind
@@ -68,15 +80,15 @@ func marshalInto(before interface{}, kind string, held []byte, room int) (n int6
 	switch kind {
 	case "buffer":
 		b := bytes.NewBuffer(append([]byte(nil), held...))
-		panicked, pmsg = guard(func() { n, err = pdu.Marshal(b, p) })
+		_, panicked, pmsg = callWatchMarked(func() { n, err = pdu.Marshal(b, p) })
 		got = b.Bytes()
 	case "wrapped":
 		b := heldBuffer{bytes.NewBuffer(append([]byte(nil), held...))}
-		panicked, pmsg = guard(func() { n, err = pdu.Marshal(b, p) })
+		_, panicked, pmsg = callWatchMarked(func() { n, err = pdu.Marshal(b, p) })
 		got = b.Bytes()
 	default: // "room"
 		w := &roomWriter{got: append([]byte(nil), held...), room: room}
-		panicked, pmsg = guard(func() { n, err = pdu.Marshal(w, p) })
+		_, panicked, pmsg = callWatchMarked(func() { n, err = pdu.Marshal(w, p) })
 		got = w.got
 	}
 	return
@@ -85,6 +97,9 @@ func marshalInto(before interface{}, kind string, held []byte, room int) (n int6
 // checkDest: the C12 clauses on a destination that already holds octets / gives up after [room] octets.
 // [fresh]: what a fresh recording writer received for the same value (nil when Marshal refused it).
 func checkDest(r *Run, t pduType, before interface{}, term string, fresh []byte, freshErr bool, kind string, held []byte, room int, emit bool) {
+	if stallsExhausted() {
+		return // Marshal stopped returning many times in this run (reported as marshal-never-returns/…): no further calls
+	}
 	r.SetReplay(replayValueDest(before, kind, held, room))
 	n, err, got, panicked, pmsg := marshalInto(before, kind, held, room)
 	in := fmt.Sprintf("marshal %s %.2000s into %s holding %d octets (%s) room=%d", t.Name, term, kind, len(held), shortHex(held), room)
@@ -92,7 +107,7 @@ func checkDest(r *Run, t pduType, before interface{}, term string, fresh []byte,
 	res := "MPanic"
 	switch {
 	case panicked:
-		r.Fail("marshal-panic/dest="+kind+"/"+t.Name, "Marshal panicked", in, "panic: "+pmsg, "returns normally (value or error)")
+		r.Fail(pcls("marshal-panic/dest="+kind+"/"+t.Name, pmsg), "Marshal panicked", in, "panic: "+pmsg, "returns normally (value or error)")
 	case len(got) < len(held) || !bytes.Equal(got[:len(held)], held):
 		r.Fail("marshal-clobbered-destination/dest="+kind+"/"+t.Name, "octets the destination already held were changed", in, shortHex(got), "prefix "+shortHex(held))
 		return
@@ -214,7 +229,7 @@ func corrC12(r *Run) {
 		}
 		switch {
 		case panicked:
-			r.Fail("marshal-panic/"+t.Name, "Marshal panicked", in, "panic: "+pmsg, "returns normally (value or error)")
+			r.Fail(pcls("marshal-panic/"+t.Name, pmsg), "Marshal panicked", in, "panic: "+pmsg, "returns normally (value or error)")
 		case err != nil:
 			if len(frame) != 0 {
 				r.Fail("marshal-error-but-wrote/"+t.Name, "Marshal returned an error after writing to the destination", in,
@@ -252,7 +267,7 @@ func corrC12(r *Run) {
 			}
 			switch {
 			case panicked2:
-				r.Fail("marshal-panic/second-call/"+t.Name, "a second Marshal of the same pointer panicked", in, "panic: "+pmsg2, "returns normally")
+				r.Fail(pcls("marshal-panic/second-call/"+t.Name, pmsg2), "a second Marshal of the same pointer panicked", in, "panic: "+pmsg2, "returns normally")
 			case (err == nil) != (err2 == nil) || !bytes.Equal(frame, frame2) || (err == nil && n2 != nret):
 				r.Fail("marshal-second-call-differs/"+t.Name, "marshalling the same pointer twice gave different results", in,
 					fmt.Sprintf("second: n=%d err=%v %s", n2, err2, shortHex(frame2)), fmt.Sprintf("first: n=%d err=%v %s", nret, err, shortHex(frame)))
@@ -323,7 +338,7 @@ func corrC12(r *Run) {
 			in := "marshal (dense sweep: " + it.what + ") " + it.t.Name + " " + coqValue(before)
 			switch {
 			case panicked:
-				r.Fail("marshal-panic/"+it.t.Name, "Marshal panicked", in, "panic: "+pmsg, "returns normally (value or error)")
+				r.Fail(pcls("marshal-panic/"+it.t.Name, pmsg), "Marshal panicked", in, "panic: "+pmsg, "returns normally (value or error)")
 			case err != nil:
 				if len(w.calls) != 0 {
 					r.Fail("marshal-error-but-wrote/"+it.t.Name, "Marshal returned an error after writing to the destination", in, fmt.Sprint(err), "nothing written on error")
